@@ -1028,6 +1028,14 @@ func c05Positions() []c05Position {
 		{name: "choice-second", site: func(t, o string) *gen.Node { return gen.Ref(o, t) }, other: 1},
 		{name: "key-shortcut", site: func(t, o string) *gen.Node { return gen.Obj(gen.Int("1").KRefKey(t)) }},
 		{name: "type", site: func(t, o string) *gen.Node { return gen.Str("abc").R("type", q(t)) }},
+		{name: "type-on-nullable-null", site: func(t, o string) *gen.Node { return gen.Null().R("type", q(t)).R("nullable", "true") }},
+		{name: "or-on-nullable-null", site: func(t, o string) *gen.Node {
+			return gen.Null().RVal("or", gen.ListOf(lit(`"integer"`), lit(q(t)))).R("nullable", "true")
+		}},
+		{name: "or-set-on-nullable-null", site: func(t, o string) *gen.Node {
+			return gen.Null().R("nullable", "true").RVal("or", gen.ListOf(set(gen.Rule{Name: "type", Val: lit(q(t))}), lit(`"integer"`)))
+		}},
+		{name: "value-shortcut-nullable", site: func(t, o string) *gen.Node { return gen.Ref(t).R("nullable", "true") }},
 		{name: "or-item-first", site: func(t, o string) *gen.Node {
 			return gen.Str("abc").RVal("or", gen.ListOf(lit(q(t)), lit(`"integer"`)))
 		}},
@@ -1720,7 +1728,7 @@ func init() {
 			"(1) UsedUserTypes() of the root text and of every type text on a fresh type-less object = the model's name set, no duplicates; the same set again from the built root before and after Check() under every registered subset. " +
 			"(2) For every one of the 2^k subsets of withheld definitions (withheld = registered nowhere): M = names reachable from the root through registered types that are not registered; M non-empty => Check() must fail with 1302 and its message must name a member of M; M empty => Check() must not fail with 1302. " +
 			"(3) the digest (verdict code, AST, example, used types, OpenAPI text) and the Check() message of a project must not change when 1-3 valid self-contained unused types are registered as well (all registered, and under one random subset). " +
-			"Workload: a complete grid of 17 reference positions x nesting depth 0-3 x 0-2 intermediate types x target with/without a reference of its own (all subsets each), look-alike traps, random acyclic projects biased to many references (1/5 under a random layout), and the repository test corpus for the duplicate / registration-independence sub-clauses. distinct_nontrivial = distinct projects that were valid subjects (hashed) + corpus texts with at least one used name.",
+			"Workload: a complete grid of 21 reference positions (incl. type / or on a `null` example with nullable: true) x nesting depth 0-3 x 0-2 intermediate types x target with/without a reference of its own (all subsets each), look-alike traps, random acyclic projects biased to many references (1/5 under a random layout), and the repository test corpus for the duplicate / registration-independence sub-clauses. distinct_nontrivial = distinct projects that were valid subjects (hashed) + corpus texts with at least one used name.",
 		MinNontrivialQuick: 20000, MinNontrivialThorough: 200000,
 		MaxInconclusiveFrac: 0.10,
 		Assumptions: []string{
